@@ -459,7 +459,8 @@ func init() {
 			"C03 (the catalog that was current before a call dumps identically after it; one held catalog, one decoded find result and one unread cursor are re-read at the end), " +
 			"C13 also for the target of find-and-modify calls, C19, C20 run on the implementation alone; " +
 			"key equality and order in the C07/C13/C15 oracles come from an own path walk and an exact big.Rat comparison of numbers; " +
-			"~20% of the well-formed histories follow an index scenario (partial-filter moves, key shifts/swaps in one multi-update, unique build over duplicates, bulk with a failing model, multikey arity changes, 4–5 column compound multikey keys, numeric edge keys, index builds that fail late on a partial filter raising an error for some documents, drops aimed at the _id index) " +
+			"~20% of the well-formed histories follow an index scenario (partial-filter moves, key shifts/swaps in one multi-update, unique build over duplicates, bulk with a failing model, multikey arity changes, 4–5 column compound multikey keys, numeric edge keys, index builds that fail late on a partial filter raising an error for some documents, drops aimed at the _id index), 7% use namespace names that are string prefixes of each other (c, c2, c_archive, c.x, c.x.y in d1 / d10) with drops of the shorter ones and listings, " +
+			"6% update arrays of arrays through indexed paths, alone and followed by a failing operator " +
 			"and a third of the sorts on indexed collections use an index key as the sort specification; " +
 			"non-trivial = a successful call that changed the state or returned/matched something",
 		Gen: func(r *gen.R, idx int) []run.Case {
